@@ -101,7 +101,7 @@ func H_C05_points() {
 	}
 	issuer := rt.Havoc[*x509.Certificate]("issuer")
 	theCert, theIssuer, theSigningTime = cert, issuer, rt.Time("signingTime")
-	r := CertCheckStatus(context.Background(), cert, issuer, CertCheckStatusOptions{Fetcher: envFetcher{}, SigningTime: theSigningTime})
+	r := CertCheckStatus(rt.EnvContext{Tag: "caller"}, cert, issuer, CertCheckStatusOptions{Fetcher: envFetcher{}, SigningTime: theSigningTime})
 
 	hasFreshest, _ := rt.ExtFlags(cert.Extensions, 46)
 	rt.Assert(r != nil && r.RevocationMethod == result.RevocationMethodCRL, "C05.L3.method")
@@ -167,11 +167,11 @@ func H_C05_edge() {
 	issuer := rt.Havoc[*x509.Certificate]("issuer")
 	if rt.Choose("nodp", 2) == 1 {
 		cert.CRLDistributionPoints = nil
-		r := CertCheckStatus(context.Background(), cert, issuer, CertCheckStatusOptions{Fetcher: envFetcher{}})
+		r := CertCheckStatus(rt.EnvContext{Tag: "caller"}, cert, issuer, CertCheckStatusOptions{Fetcher: envFetcher{}})
 		rt.Assert(r.Result == result.ResultNonRevokable && len(points) == 0, "C05.edge.nodp")
 		return
 	}
 	cert.CRLDistributionPoints = []string{rt.AtomString("dp0")}
-	r := CertCheckStatus(context.Background(), cert, issuer, CertCheckStatusOptions{})
+	r := CertCheckStatus(rt.EnvContext{Tag: "caller"}, cert, issuer, CertCheckStatusOptions{})
 	rt.Assert(r.Result == result.ResultUnknown && len(r.ServerResults) == 1 && r.ServerResults[0].Result == result.ResultUnknown && r.ServerResults[0].Error != nil, "C05.edge.nofetcher")
 }
